@@ -14,7 +14,7 @@ func init() { register("C04", checkC04) }
 const (
 	rC04Safe = "ORDABS.accepted-implies-safe"
 	rC04Perm = "ORDABS.rewrite-preserves-literals"
-	rC04Ord  = "ORD.check-sees-evaluated-clause"
+	rC04Ord  = "ORDABS.check-sees-evaluated-clause"
 	rC04Red  = "ASSERT.reducer-argument"
 	rC04Eval = "ORDABS.accepted-evaluates"
 )
@@ -426,11 +426,11 @@ func backPrems(v ordabs.Value) []hPrem {
 func checkC04(c *core.Ctx) {
 	c.Rule(rC04Safe, "RewriteClause followed by CheckRule, both read from source and evaluated on every clause built from up to three premises of a pool (positive, negated, wildcard and built-in atoms, equalities with constants, variables and function expressions, inequalities) with three kinds of head and with or without a do-transform: whenever the rule check accepts, the rewritten clause is safe under left-to-right evaluation by the reference judgement (every variable of a negated atom, comparison, function argument and of the head has a value where it is needed)", 1)
 	c.Rule(rC04Perm, "on the same clauses RewriteClause returns a permutation of the premises: no literal is dropped, duplicated or changed, and a negated atom is placed after the literals that bind its variables whenever the clause has such literals", 1)
-	c.Rule(rC04Ord, "Analyzer.Analyze checks the clause it evaluates: the value passed to CheckRule is the rewritten clause and is the one appended to the rules", 1)
+	c.Rule(rC04Ord, "Analyzer.Analyze, read from source and evaluated with recording stages, checks the clause it evaluates: every clause is rewritten once against the desugared declarations, CheckRule receives the rewritten clause, exactly the checked clauses reach ProgramInfo.Rules and (evaluated) InitialFacts, and a rejected clause stops Analyze", 1)
 	c.Rule(rC04Red, "reducers applied to a non-variable return an error instead of asserting the argument's type", 1)
 	c.Rule(rC04Eval, "every clause of the family that RewriteClause + CheckRule (read from source) accept is handed, exactly as rewritten, to (*engine).oneStepEvalClause, read from source and evaluated with the real premise helpers, expression evaluator, built-ins and union-find over two set-model stores: evaluation returns no error and derives only ground facts", 1)
 	c04Corpus(c)
-	c04AnalyzeOrder(c)
+	analyzePipeline(c, "", rC04Ord)
 	c04Reducer(c)
 }
 
@@ -456,6 +456,10 @@ func premisePool() []hPrem {
 
 // c04OnlyHead restricts the corpus to one head shape (used when another property repeats the obligation); -1 = all.
 var c04OnlyHead = -1
+
+// c04FnClass: report the class "function expression in a positive atom" (off when another property repeats the
+// obligation for a head shape to which that class does not belong).
+var c04FnClass = true
 
 func c04Corpus(c *core.Ctx) {
 	rw := c.MustFunc(rC04Perm, "analysis", "RewriteClause")
@@ -521,6 +525,7 @@ func c04Corpus(c *core.Ctx) {
 		{headPred: "h", head: []hTerm{hv("X"), hv("N")}, hasDo: true, doKeys: []string{"X", "#7"}},
 	}
 	safeBad, permBad := "", ""
+	safeBadFn, evalBadFn, nFnClass := "", "", 0
 	n, accepted := 0, 0
 	multiset := func(ps []hPrem) string {
 		var ss []string
@@ -597,15 +602,37 @@ func c04Corpus(c *core.Ctx) {
 				continue // rejected: always sound
 			}
 			accepted++
-			if reason := unsafeReason(cl.head, rp, cl.hasDo, cl.doKeys); reason != "" && safeBad == "" {
+			reason := unsafeReason(cl.head, rp, cl.hasDo, cl.doKeys)
+			// a separate class with a construct of its own: a function expression among the arguments of a
+			// positive atom of a user predicate whose variables have no value yet (see known_findings.txt)
+			fnClass := strings.Contains(reason, "when the function argument of ") && !strings.Contains(reason, "when the function argument of !") && !strings.Contains(reason, "when the function argument of :")
+			if reason != "" {
 				var rs []string
 				for _, p := range rp {
 					rs = append(rs, p.String())
 				}
-				safeBad = fmt.Sprintf("clause %s is accepted and evaluated with premises in the order [%s], but %s", cl, strings.Join(rs, ", "), reason)
+				msg := fmt.Sprintf("clause %s is accepted and evaluated with premises in the order [%s], but %s", cl, strings.Join(rs, ", "), reason)
+				if fnClass && safeBadFn == "" {
+					safeBadFn = msg
+				}
+				if !fnClass && safeBad == "" {
+					safeBad = msg
+				}
+			}
+			if fnClass {
+				nFnClass++
 			}
 			// accepted: hand the very clause analysis produced to the rule evaluator
-			if rj != nil && !cl.hasDo && evalBad == "" {
+			if rj != nil && !cl.hasDo && fnClass && evalBadFn == "" {
+				rj.load(rjStores()[1], rjStore{})
+				got, err := rj.seminaive(evalF, rewritten)
+				if !runORD(c, rC04Eval, evalF.Name, evalF, err) {
+					rj = nil
+				} else if got.err {
+					evalBadFn = fmt.Sprintf("clause %s is accepted by analysis, but evaluating it fails with an error (a variable without a value in a function argument of a positive atom)", cl)
+				}
+			}
+			if rj != nil && !cl.hasDo && !fnClass && evalBad == "" {
 				for si, st := range rjStores()[:2] {
 					rj.load(st, rjStore{})
 					got, err := rj.seminaive(evalF, rewritten)
@@ -629,6 +656,13 @@ func c04Corpus(c *core.Ctx) {
 	if evalF != nil && rj != nil {
 		c.Cover("accepted_clauses_evaluated", evaluated)
 		c.Check(evalBad == "" && (evaluated > 100 || c04OnlyHead >= 0), rC04Eval, evalF.Name, evalF.Decl.Pos(), fmt.Sprintf("%d evaluations of accepted clauses: no error, only ground facts", evaluated), evalBad)
+	}
+	if c04FnClass {
+		const fnConstruct = ":function-argument-of-positive-atom"
+		c.Check(safeBadFn == "", rC04Safe, ck.Name+fnConstruct, ck.Decl.Pos(), fmt.Sprintf("%d accepted clauses with a function expression in a positive atom: its variables have values", nFnClass), safeBadFn)
+		if evalF != nil && rj != nil {
+			c.Check(evalBadFn == "", rC04Eval, evalF.Name+fnConstruct, evalF.Decl.Pos(), "accepted clauses with a function expression in a positive atom evaluate without error", evalBadFn)
+		}
 	}
 	c.Check(safeBad == "" && (accepted > 20 || c04OnlyHead >= 0), rC04Safe, ck.Name, ck.Decl.Pos(), fmt.Sprintf("%d of %d clauses accepted, all of them safe in their evaluation order", accepted, n), safeBad)
 }
